@@ -1869,7 +1869,7 @@ V(id='c43-even-integer-threshold-benign', prop='C43', file='mpmath/math2.py',
 
 # ---- S-R1 special-value tables (C02, C06) ----
 V(id='c06-mod-zero-divisor-shortcut', prop='C06', file='mpmath/libmp/libmpf.py',
-  old="    if tman and ssign == tsign and texp > sexp+sbc:", new="    if ssign == tsign and texp > sexp+sbc:",
+  old="    if not tman:\n        raise ZeroDivisionError\n    # Important special case: t is larger.", new="    # Important special case: t is larger.",
   expect='fire:S-R1:mpf_mod')
 V(id='c06-frac-of-inf', prop='C06', file='mpmath/libmp/libmpf.py',
   old="def mpf_frac(s, prec=0, rnd=round_fast):\n    return mpf_sub(s, mpf_floor(s), prec, rnd)",
@@ -2051,4 +2051,19 @@ V(id='c37-benign-sqrtrem-upward-fixed', prop='C37', file='mpmath/libmp/libintmat
   expect='silent')
 V(id='c37-benign-sqrtrem-unpack', prop='C37', file='mpmath/libmp/libintmath.py',
   old="        y -= 1\n        rem += (1+2*y)\n", new="        y, rem = y-1, rem + (2*y-1)\n",
+  expect='silent')
+
+# ---- C06 M-R1 (fix 246e57d): nothing as large as the exponent gap is written out ----
+V(id='c06-mod-gap-guard-same-sign-only', prop='C06', file='mpmath/libmp/libmpf.py',
+  old="    if texp > sexp+sbc:\n        if ssign == tsign or not sman:\n            return mpf_pos(s, prec, rnd)\n        return mpf_add(s, t, prec, rnd)\n",
+  new="    if ssign == tsign and texp > sexp+sbc:\n        return mpf_pos(s, prec, rnd)\n",
+  expect='fire:M-R1:mpf_mod')
+V(id='c06-mod-dividend-shifted', prop='C06', file='mpmath/libmp/libmpf.py',
+  old="        man = (sman * pow(2, sexp-texp, abs(tman))) % tman\n", new="        man = (sman << (sexp-texp)) % tman\n",
+  expect='fire:M-R1:mpf_mod')
+V(id='c06-mod-opposite-sign-forgets-zero', prop='C06', file='mpmath/libmp/libmpf.py',
+  old="        if ssign == tsign or not sman:\n            return mpf_pos(s, prec, rnd)", new="        if ssign == tsign:\n            return mpf_pos(s, prec, rnd)",
+  expect='fire:S-R1:mpf_mod')
+V(id='c06-benign-mod-guard-reordered', prop='C06', file='mpmath/libmp/libmpf.py',
+  old="    if texp > sexp+sbc:\n        if ssign == tsign or not sman:", new="    if sexp + sbc < texp:\n        if not sman or ssign == tsign:",
   expect='silent')
